@@ -171,6 +171,9 @@ def run_check(prop: str, tier: str, extra: Any = None) -> int:
     rep.info(f"model checking: {states} distinct states, {transitions} transitions ({r['n_cfgs']} configurations, minute = 12 units)")
     # ---- real executions
     scns = list(gen_sweep(full=not q)) + gen_random(seed, 500 if q else 6000)
+    for kf in common.known_findings():
+        if kf["property"] == prop and kf.get("regression_scenario"):
+            scns.append(dict(kf["regression_scenario"], family="ledger:" + kf["id"]))
     traces = mbt.drive("engine.sch_check", "_drive_one", scns)
     verdicts = mbt.observe(traces, "ObsSched", shards=8 if q else 16)
     viol_n = 0
